@@ -61,10 +61,15 @@ def build(jobs=6):
     """Build both harness variants (cfg hook on) and the OCaml replayer."""
     env = dict(os.environ)
     env.update({"CARGO_NET_OFFLINE": "true", "RUSTFLAGS": "--cfg salsa_rs_salsa_verif"})
-    hdir = os.path.join(ROOT, "harness-conc")
-    for target, extra in ((".build/target-shuttle", []),
-                          (".build/target-conc-threads", ["--no-default-features"])):
-        env["CARGO_TARGET_DIR"] = os.path.join(ROOT, target)
+    from vplib import common as _c
+    hdir = _c.crate_dir("harness-conc")
+    global SHUTTLE_BIN, THREADS_BIN
+    if _c.REPO != "/repo":
+        SHUTTLE_BIN = os.path.join(_c.target_dir("shuttle"), "release", "harness-conc")
+        THREADS_BIN = os.path.join(_c.target_dir("conc-threads"), "release", "harness-conc")
+    for target, extra in ((_c.target_dir("shuttle"), []),
+                          (_c.target_dir("conc-threads"), ["--no-default-features"])):
+        env["CARGO_TARGET_DIR"] = target
         p = subprocess.run(["cargo", "build", "--offline", "--release", f"-j{jobs}"] + extra,
                            cwd=hdir, env=env, timeout=1800, stdout=subprocess.PIPE,
                            stderr=subprocess.STDOUT, text=True)
